@@ -11,9 +11,12 @@ package retry
 //@   pure
 //@   ensures [least-unresolved] result == min_uncertain
 
+// appended: the event last handed to the repair queue
+//@ ghost appended Ref
 //@ func AsyncFifoRetry.Append(event)
 //@   assumed
-//@   pure
+//@   modifies ghost.appended
+//@   ensures [queued] appended == event
 
 //@ func AsyncFifoRetry.Size() (result)
 //@   assumed
